@@ -19,9 +19,14 @@ pub fn run_sat(case: &Value, _seed: u64) -> Outcome {
     o.key = format!("{}{}", case["f"], case["i"]);
     o.nontrivial = case["f"].as_array().map(|a| !a.is_empty()).unwrap_or(false);
     let expected = case["s"].as_bool().unwrap_or(false);
-    for chain in 0..2 {
+    // chains 0, 1: two version chains, one spelling per rank; chains 2, 3: chain 0 with the INSTALLED resp. the REQUIRED
+    // version spelled with an explicit epoch 0 ("0:1.0" and "1.0" are the same Debian version, not the same text)
+    for chain_id in 0..4 {
+        let chain = if chain_id >= 2 { 0 } else { chain_id };
         let names: HashMap<&str, &str> = [("p", if chain == 0 { "libfoo2.0-dev" } else { "g++" }), ("q", if chain == 0 { "bar" } else { "x~y" })].into_iter().collect();
-        let ver = |rank: u64| -> String { let v = VERS[chain][rank as usize]; if chain == 1 && rank >= 3 { format!("1:{}", v) } else { v.to_string() } };
+        let ver0 = |rank: u64| -> String { let v = VERS[chain][rank as usize]; if chain == 1 && rank >= 3 { format!("1:{}", v) } else { v.to_string() } };
+        let ver = |rank: u64| -> String { if chain_id == 3 { format!("0:{}", ver0(rank)) } else { ver0(rank) } };
+        let ver_inst = |rank: u64| -> String { if chain_id == 2 { format!("0:{}", ver0(rank)) } else { ver0(rank) } };
         // text of the field
         let text = case["f"].as_array().unwrap().iter().map(|e| e.as_array().unwrap().iter().map(|a| {
             let n = names[a["pkg"].as_str().unwrap()];
@@ -31,9 +36,9 @@ pub fn run_sat(case: &Value, _seed: u64) -> Outcome {
         let mut installed: HashMap<String, Version> = HashMap::new();
         for (p, r) in case["i"].as_object().unwrap() {
             let r = r.as_u64().unwrap();
-            if r != 0 { installed.insert(names[p.as_str()].to_string(), ver(r).parse().unwrap()); }
+            if r != 0 { installed.insert(names[p.as_str()].to_string(), ver_inst(r).parse().unwrap()); }
         }
-        let feats = vec![format!("chain{}", chain)];
+        let feats = vec![format!("chain{}", chain_id)];
         let by_map = |n: &str| installed.lookup_version(n).map(|c| c.into_owned());
         let by_closure = |n: &str| installed.get(n).cloned();
         let single: Option<(String, Version)> = if installed.len() == 1 { installed.iter().next().map(|(k, v)| (k.clone(), v.clone())) } else { None };
